@@ -128,3 +128,195 @@ Example generalize_examples :
   generalize HHCURVETO [9; 1; 2; 3; 4] = Ok [(RRCURVETO, [1; 9; 2; 3; 4; 0])] /\
   generalize VVCURVETO [1; 2; 3; 4; 5; 6; 7; 8] = Ok [(RRCURVETO, [0; 1; 2; 3; 0; 4]); (RRCURVETO, [0; 5; 6; 7; 0; 8])].
 Proof. repeat split; vm_compute; reflexivity. Qed.
+
+Ltac Zify.zify_post_hook ::= Z.to_euclidean_division_equations.
+
+(* ---- rcurveline: curves, then one line *)
+Lemma rcurveline_body : forall n body t a b, (length body <= n)%nat -> everyN6 RRCURVETO body = Ok t ->
+  interp_all (t ++ [(RLINETO, [a; b])]) = i_rcurveline (body ++ [a; b]).
+Proof.
+  induction n as [|n IH]; intros body t a b Hn H.
+  - destruct body; [|cbn in Hn; lia]. cbn in H. apply Ok_inj in H. subst. reflexivity.
+  - destruct body as [|a1 [|a2 [|a3 [|a4 [|a5 [|a6 r]]]]]]; cbn [everyN6] in H; try discriminate; [apply Ok_inj in H; subst; reflexivity|].
+    destruct (everyN6 RRCURVETO r) as [t'|e] eqn:E; [|discriminate]. cbn [bind] in H. apply Ok_inj in H. subst t.
+    cbn [app interp_all]. rewrite interp_rc. cbn [bind].
+    rewrite (IH r t' a b) by (cbn in Hn; auto; lia).
+    cbn [i_rcurveline]. destruct (i_rcurveline (r ++ [a; b])); reflexivity.
+Qed.
+
+(* ---- rlinecurve: lines, then one curve *)
+Lemma rlinecurve_step a b r : length r <> 4%nat -> i_rlinecurve (a :: b :: r) = let* t := i_rlinecurve r in Ok (RL a b :: t).
+Proof.
+  intros H. destruct r as [|c [|d [|e [|f [|g r]]]]]; cbn [i_rlinecurve]; try reflexivity. cbn in H. lia.
+Qed.
+Lemma rlinecurve_body : forall n body t c1 c2 c3 c4 c5 c6, (length body <= n)%nat -> everyN2 RLINETO body = Ok t ->
+  interp_all (t ++ [(RRCURVETO, [c1; c2; c3; c4; c5; c6])]) = i_rlinecurve (body ++ [c1; c2; c3; c4; c5; c6]).
+Proof.
+  induction n as [|n IH]; intros body t c1 c2 c3 c4 c5 c6 Hn H.
+  - destruct body; [|cbn in Hn; lia]. cbn in H. apply Ok_inj in H. subst. reflexivity.
+  - destruct body as [|a [|b r]]; cbn [everyN2] in H; try discriminate; [apply Ok_inj in H; subst; reflexivity|].
+    destruct (everyN2 RLINETO r) as [t'|e] eqn:E; [|discriminate]. cbn [bind] in H. apply Ok_inj in H. subst t.
+    cbn [app interp_all]. rewrite interp_rl. cbn [bind].
+    rewrite (IH r t' c1 c2 c3 c4 c5 c6) by (cbn in Hn; auto; lia).
+    rewrite rlinecurve_step by (rewrite app_length; cbn; lia).
+    destruct (i_rlinecurve (r ++ [c1; c2; c3; c4; c5; c6])); reflexivity.
+Qed.
+
+Lemma split_last (l : list Z) (k : nat) : (k <= length l)%nat ->
+  l = firstn (length l - k) l ++ skipn (length l - k) l /\ length (skipn (length l - k) l) = k.
+Proof. intros H. split; [symmetry; apply firstn_skipn|rewrite skipn_length; lia]. Qed.
+
+Theorem rcurveline_ok args cs : generalize RCURVELINE args = Ok cs -> interp_all cs = interp RCURVELINE args.
+Proof.
+  intros H. unfold generalize in H. cbn in H. unfold interp. cbn.
+  destruct ((lenZ args <? 8) || negb (lenZ args mod 6 =? 2)) eqn:G; [discriminate|].
+  apply orb_false_iff in G. destruct G as [G1 G2]. apply Z.ltb_ge in G1. unfold lenZ in *.
+  destruct (split_last args 2 ltac:(lia)) as [S L].
+  destruct (everyN6 RRCURVETO (firstn (length args - 2) args)) as [t|e] eqn:E; [|discriminate]. cbn [bind] in H. apply Ok_inj in H. subst cs.
+  destruct (skipn (length args - 2) args) as [|a [|b [|c r]]] eqn:K; cbn in L; try lia.
+  rewrite S at 1. eapply rcurveline_body; [apply le_n|exact E].
+Qed.
+
+Theorem rlinecurve_ok args cs : generalize RLINECURVE args = Ok cs -> interp_all cs = interp RLINECURVE args.
+Proof.
+  intros H. unfold generalize in H. cbn in H. unfold interp. cbn.
+  destruct ((lenZ args <? 8) || negb (lenZ args mod 2 =? 0)) eqn:G; [discriminate|].
+  apply orb_false_iff in G. destruct G as [G1 G2]. apply Z.ltb_ge in G1. unfold lenZ in *.
+  destruct (split_last args 6 ltac:(lia)) as [S L].
+  destruct (everyN2 RLINETO (firstn (length args - 6) args)) as [t|e] eqn:E; [|discriminate]. cbn [bind] in H. apply Ok_inj in H. subst cs.
+  destruct (skipn (length args - 6) args) as [|c1 [|c2 [|c3 [|c4 [|c5 [|c6 [|c7 r]]]]]]] eqn:K; cbn in L; try lia.
+  rewrite S at 1. eapply rlinecurve_body; [apply le_n|exact E].
+Qed.
+
+(* ---- hvcurveto / vhcurveto *)
+(* enough fuel: every step consumes at least four arguments *)
+Lemma i_hv_fuel : forall f1 f2 h args, (length args < f1)%nat -> (length args < f2)%nat -> i_hv f1 h args = i_hv f2 h args.
+Proof.
+  induction f1 as [|f1 IH]; intros f2 h args H1 H2; [lia|].
+  destruct f2 as [|f2]; [lia|]. cbn [i_hv].
+  destruct args as [|a [|b [|c [|d r]]]]; try reflexivity.
+  destruct r as [|x [|y r']].
+  - rewrite (IH f2 (negb h) []) by (cbn in *; lia). reflexivity.
+  - rewrite (IH f2 (negb h) []) by (cbn in *; lia). reflexivity.
+  - rewrite (IH f2 (negb h) (x :: y :: r')) by (cbn in *; lia). reflexivity.
+Qed.
+
+Definition hv_seg (h : bool) (a b c d last : Z) : rseg := if h then RC a 0 b c last d else RC 0 a b c d last.
+
+(* a body of whole groups of four followed by a tail that is empty or the final group of five *)
+Lemma hv_body : forall n body h t tail, (length body <= n)%nat -> g_hv4 h body = Ok t ->
+  (tail = [] \/ length tail = 5%nat) ->
+  forall f f', (length (body ++ tail) < f)%nat -> (length tail < f')%nat ->
+  i_hv f h (body ++ tail) =
+    (let* a := interp_all t in
+     let* b := i_hv f' (if Nat.even (length body / 4) then h else negb h) tail in Ok (a ++ b)).
+Proof.
+  induction n as [|n IH]; intros body h t tail Hn H Ht f f' Hf Hf'.
+  - destruct body; [|cbn in Hn; lia]. cbn in H. apply Ok_inj in H. subst t. cbn [app interp_all bind length].
+    replace (0 / 4)%nat with 0%nat by reflexivity. cbn [Nat.even]. rewrite (i_hv_fuel f f' h tail) by (cbn in Hf; lia). destruct (i_hv f' h tail); reflexivity.
+  - destruct body as [|a [|b [|c [|d r]]]]; cbn [g_hv4] in H; try discriminate.
+    + apply Ok_inj in H. subst t. cbn [app interp_all bind length]. replace (0 / 4)%nat with 0%nat by reflexivity. cbn [Nat.even].
+      rewrite (i_hv_fuel f f' h tail) by (cbn in Hf; lia). destruct (i_hv f' h tail); reflexivity.
+    + destruct (g_hv4 (negb h) r) as [t'|e] eqn:E; [|discriminate]. cbn [bind] in H. apply Ok_inj in H. subst t.
+      destruct f as [|f]; [lia|]. cbn [app i_hv].
+      (* the remainder is never a single trailing argument *)
+      assert (NS: match r ++ tail with [x] => (x, []) | _ => (0, r ++ tail) end = (0, r ++ tail)).
+      { destruct r as [|r1 [|r2 r']].
+        - destruct Ht as [->|Ht]; [reflexivity|]. destruct tail as [|t1 [|t2 tl]]; cbn in Ht; try lia; reflexivity.
+        - exfalso. cbn [g_hv4] in E. discriminate.
+        - reflexivity. }
+      rewrite NS.
+      assert (Lr: (length r <= n)%nat) by (cbn in Hn; lia).
+      assert (Lf: (length (r ++ tail) < f)%nat) by (cbn [app length] in Hf; lia).
+      rewrite (IH r (negb h) t' tail Lr E Ht f f' Lf Hf').
+      cbn [interp_all]. 
+      assert (I1: interp RRCURVETO (if h then [a; 0; b; c; 0; d] else [0; a; b; c; d; 0]) = Ok [if h then RC a 0 b c 0 d else RC 0 a b c d 0])
+        by (destruct h; reflexivity).
+      rewrite I1. cbn [bind].
+      (* parity of the group count *)
+      assert (P: Nat.even (length (a :: b :: c :: d :: r) / 4) = negb (Nat.even (length r / 4))).
+      { cbn [length]. replace (S (S (S (S (length r))))) with (1 * 4 + length r)%nat by lia.
+        rewrite Nat.div_add_l by lia. rewrite Nat.even_add. cbn. destruct (Nat.even (length r / 4)); reflexivity. }
+      rewrite P.
+      destruct (interp_all t') as [x|e]; cbn [bind]; [|reflexivity].
+      replace (if negb (Nat.even (length r / 4)) then h else negb h) with (if Nat.even (length r / 4) then negb h else negb (negb h))
+        by (destruct (Nat.even (length r / 4)); destruct h; reflexivity).
+      destruct (i_hv f' (if Nat.even (length r / 4) then negb h else negb (negb h)) tail) as [y|e]; cbn [bind]; [|reflexivity].
+      destruct h; reflexivity.
+Qed.
+
+Lemma even_div4 k r : (k mod 8 = r)%nat -> (r = 0 \/ r = 4)%nat -> Nat.even (k / 4) = (r =? 0)%nat.
+Proof.
+  intros Hm Hr. pose proof (Nat.div_mod k 8 ltac:(lia)) as D. rewrite Hm in D.
+  replace k with ((2 * (k / 8)) * 4 + r)%nat at 1 by lia.
+  rewrite Nat.div_add_l by lia. rewrite Nat.even_add, Nat.even_mul. cbn [Nat.even orb].
+  destruct Hr as [->| ->]; reflexivity.
+Qed.
+
+Lemma interp_all_single o l : interp_all [(o, l)] = let* a := interp o l in Ok a.
+Proof. cbn [interp_all]. destruct (interp o l); cbn [bind]; [rewrite app_nil_r|]; reflexivity. Qed.
+
+Lemma hvvh_ok (h : bool) args cs : g_hvvh h args = Ok cs -> interp_all cs = i_hv (S (length args)) h args.
+Proof.
+  intros H. unfold g_hvvh in H.
+  set (l := lenZ args) in *. set (m := l mod 8) in *.
+  destruct ((l <? 4) || negb ((m =? 0) || (m =? 1) || (m =? 4) || (m =? 5))) eqn:G; [discriminate|].
+  apply orb_false_iff in G. destruct G as [G1 G2]. apply Z.ltb_ge in G1. apply negb_false_iff in G2.
+  assert (Hl: l = Z.of_nat (length args)) by reflexivity. assert (Hm: m = l mod 8) by reflexivity. rewrite Hl in G1.
+  destruct (l mod 2 =? 1) eqn:O.
+  - (* odd count: whole groups, then the final group of five *)
+    apply Z.eqb_eq in O.
+    destruct (split_last args 5 ltac:(lia)) as [S L].
+    set (body := firstn (length args - 5) args) in *.
+    destruct (g_hv4 h body) as [t|e] eqn:E; [|discriminate]. cbn [bind] in H.
+    destruct (skipn (length args - 5) args) as [|b0 [|b1 [|b2 [|b3 [|b4 [|b5 r]]]]]] eqn:K; cbn in L; try lia.
+    apply Ok_inj in H. subst cs.
+    assert (Lb: length body = (length args - 5)%nat) by (unfold body; rewrite firstn_length; lia).
+    rewrite S at 2.
+    rewrite (hv_body _ body h t [b0; b1; b2; b3; b4] (le_n _) E (or_intror eq_refl) (Datatypes.S (length args)) 7%nat)
+      by (try (rewrite <- S); cbn [length]; lia).
+    rewrite interp_all_app. destruct (interp_all t) as [x|e]; cbn [bind]; [|reflexivity].
+    rewrite interp_all_single.
+    (* orientation of the final curve *)
+    assert (Pm: m = 1 \/ m = 5).
+    { apply orb_true_iff in G2. destruct G2 as [G2|G2]; [apply orb_true_iff in G2; destruct G2 as [G2|G2]; [apply orb_true_iff in G2; destruct G2 as [G2|G2]|]|];
+        apply Z.eqb_eq in G2; lia. }
+    assert (Pk: Nat.even (length body / 4) = (m =? 5)).
+    { rewrite Lb.
+      destruct Pm as [Pm|Pm]; rewrite Pm.
+      - rewrite (even_div4 _ 4%nat); [reflexivity| |right; reflexivity].
+        apply Nat2Z.inj. rewrite Nat2Z.inj_mod. rewrite Nat2Z.inj_sub by lia. change (Z.of_nat 8) with 8. change (Z.of_nat 5) with 5. change (Z.of_nat 4) with 4. lia.
+      - rewrite (even_div4 _ 0%nat); [reflexivity| |left; reflexivity].
+        apply Nat2Z.inj. rewrite Nat2Z.inj_mod. rewrite Nat2Z.inj_sub by lia. change (Z.of_nat 8) with 8. change (Z.of_nat 5) with 5. change (Z.of_nat 0) with 0. lia. }
+    rewrite Pk. cbn [i_hv].
+    destruct h; destruct (m =? 5); cbn [negb bind interp]; reflexivity.
+  - (* even count: whole groups only *)
+    rewrite <- (app_nil_r args) at 2.
+    rewrite (hv_body _ args h cs [] (le_n _) H (or_introl eq_refl) (Datatypes.S (length args)) 1%nat) by (rewrite ?app_nil_r; cbn [length]; lia).
+    destruct (interp_all cs) as [x|e]; cbn [bind i_hv]; [rewrite app_nil_r|]; reflexivity.
+Qed.
+
+Theorem hvcurveto_ok args cs : generalize HVCURVETO args = Ok cs -> interp_all cs = interp HVCURVETO args.
+Proof. intros H. change (generalize HVCURVETO args) with (g_hvvh true args) in H. change (interp HVCURVETO args) with (i_hv (S (length args)) true args). apply hvvh_ok. exact H. Qed.
+Theorem vhcurveto_ok args cs : generalize VHCURVETO args = Ok cs -> interp_all cs = interp VHCURVETO args.
+Proof. intros H. change (generalize VHCURVETO args) with (g_hvvh false args) in H. change (interp VHCURVETO args) with (i_hv (S (length args)) false args). apply hvvh_ok. exact H. Qed.
+
+(* ---- all thirteen path operators *)
+Theorem generalize_preserves_all o args cs : generalize o args = Ok cs -> interp_all cs = interp o args.
+Proof.
+  intros H. destruct (proved_op o) eqn:P; [apply generalize_preserves; assumption|].
+  unfold proved_op in P. repeat (apply orb_false_iff in P; destruct P as [P ?]).
+  destruct (o =? HVCURVETO) eqn:E9; [apply Z.eqb_eq in E9; subst o; apply hvcurveto_ok; exact H|].
+  destruct (o =? VHCURVETO) eqn:E10; [apply Z.eqb_eq in E10; subst o; apply vhcurveto_ok; exact H|].
+  destruct (o =? RCURVELINE) eqn:E11; [apply Z.eqb_eq in E11; subst o; apply rcurveline_ok; exact H|].
+  destruct (o =? RLINECURVE) eqn:E12; [apply Z.eqb_eq in E12; subst o; apply rlinecurve_ok; exact H|].
+  exfalso. unfold generalize in H.
+  repeat match goal with Hx : (o =? _) = false |- _ => rewrite Hx in H; clear Hx end. discriminate.
+Qed.
+
+Example generalize_examples_all :
+  generalize HVCURVETO [1; 2; 3; 4; 5] = Ok [(RRCURVETO, [1; 0; 2; 3; 5; 4])] /\
+  generalize VHCURVETO [1; 2; 3; 4; 5; 6; 7; 8; 9] = Ok [(RRCURVETO, [0; 1; 2; 3; 4; 0]); (RRCURVETO, [5; 0; 6; 7; 9; 8])] /\
+  generalize RCURVELINE [1; 2; 3; 4; 5; 6; 7; 8] = Ok [(RRCURVETO, [1; 2; 3; 4; 5; 6]); (RLINETO, [7; 8])] /\
+  generalize RLINECURVE [1; 2; 3; 4; 5; 6; 7; 8] = Ok [(RLINETO, [1; 2]); (RRCURVETO, [3; 4; 5; 6; 7; 8])].
+Proof. repeat split; vm_compute; reflexivity. Qed.
